@@ -101,6 +101,14 @@ def amount_value(be, a):
     return F(a)
 
 
+def path_amounts(sv, hyp, amounts, be):
+    """amounts of some model of the hypotheses (path condition): a concrete input that takes this path"""
+    res, model = sv.check(hyp, want_model=True)
+    if res != "sat":
+        return None
+    return model_amounts(model, amounts, be)
+
+
 def model_amounts(model, amounts, be):
     from engine.mirsmt import driver
     out = []
@@ -114,8 +122,8 @@ def is_finite_in_box(c):
     return True
 
 
-PROBES_F64 = [1.0, 3.0, 0.1, 2.5, 17.4, 1e10, 1e-7, -1.0, -36.9, 123456.789, 7.0e15, 1.0 / 3.0]
-PROBES_DEC = ["1", "3", "0.1", "2.5", "17.4", "10000000000", "0.0000001", "-1", "-36.9", "123456.789", "0.333333333333333333", "7"]
+PROBES_F64 = [0.0, 1.0, 3.0, 0.1, 2.5, 17.4, 1e10, 1e-7, -1.0, -36.9, 123456.789, 7.0e15, 1.0 / 3.0]
+PROBES_DEC = ["0", "1", "3", "0.1", "2.5", "17.4", "10000000000", "0.0000001", "-1", "-36.9", "123456.789", "0.333333333333333333", "7"]
 
 
 def probes(be):
@@ -128,7 +136,7 @@ def probe_amounts_1(c):
 
 def probe_amounts_2(c):
     ps = probes(c["backend"])
-    out = []
+    out = [[ps[0], ps[1]], [ps[0], ps[4]], [ps[1], ps[0]], [ps[0], ps[0]]]
     for i, p in enumerate(ps):
         out.append([p, ps[(i * 5 + 3) % len(ps)]])
         out.append([p, p])
